@@ -87,6 +87,13 @@ func (vm *VM) FindModuleByName(name string) *Module {
 	return vm.moduleGraph.GetModuleByID(moduleID)
 }
 
+// AddDependency - record that current module imports an existing module
+func (vm *VM) AddDependency(name string) {
+	if moduleID, exists := vm.moduleGraph.GetIDFromName(name); exists {
+		vm.moduleGraph.AddDependency(vm.csModuleID, name, moduleID)
+	}
+}
+
 func (vm *VM) CheckDepedency(name string) error {
 	moduleID, exists := vm.moduleGraph.GetIDFromName(name)
 	if exists {
